@@ -57,6 +57,7 @@ type R struct {
 	den   []string
 	cb    []string
 	nonce int
+	lastCtx sdk.Context
 	G     GenState
 }
 
